@@ -156,6 +156,15 @@ CHECKS = {
             "clause must give the specified match decision, each literal must decode to the original string, each duration literal "
             "must denote the count, and every emitted text must parse.",
             "Trusted: TLC, the harness tokenizer. Duration literals are read in the translator's dialect (unit d).", "5/C19"),
+    "C20": ("TLA+ spec CelCli (ProcessDoc steps: line_k = JSON of Eval(expr, doc_k), status = worst per-document status; -n / -b / -s / --arg) "
+            "checked by TLC (per-document independence, worst status); every state run through celpy.__main__.main and a sample through "
+            "`python -m celpy`; random streams validated by Trace_C20",
+            "TLC enumerates expressions of the bool / int / string / list fragment x every stream of up to 3-4 documents over document kinds "
+            "(matching, non-matching, erroring, another JSON shape, not JSON) x -b, and -n runs with typed --arg bindings; stdout is "
+            "compared after JSON parsing with the specified documents, exit status with the specified status (0 / 1 / 2, worst status, 3 "
+            "for malformed JSON); -d / -p spellings and -s must not change the result; syntax errors must exit 1 with a located message.",
+            "Trusted: TLC, the stream capture of the harness. A non-JSON line prints nothing (adopted convention); the per-document "
+            "status of a non-boolean under -b in NDJSON mode is not fixed by the statement.", "5/C20"),
 }
 NOT_YET = "check not built yet in this phase (planned per DESIGN.md section 5)"
 
